@@ -51,8 +51,15 @@ func Now() time.Time {
 	offset += autoTick
 	t := Epoch.Add(offset)
 	ulk()
+	if Local != nil {
+		t = t.In(Local) // what time.Now() returns on a machine whose zone is not UTC
+	}
 	return t
 }
+
+// Local, when set, is the zone in which Now() reports the (same) instant: the code under test sees
+// what it would see on a machine running in that zone.
+var Local *time.Location
 
 // Peek returns the current virtual time without ticking.
 //
